@@ -464,6 +464,10 @@ func (m *Monitors) afterEvent() {
 }
 
 func (m *Monitors) atEnd() {
+	// a run that was cut short by a violation has no end state to judge
+	if m.s.stopWhy == "violation" {
+		return
+	}
 	for _, o := range m.oracles {
 		o.atEnd()
 	}
